@@ -647,7 +647,7 @@ def build_trace(P, perm, res, ref):
     tr = {'n': n, 'perm': list(perm), 'cpos': [c + 1 for c in range(n) if P['W'][perm[c] - 1] > 0],
           'lower': int(round(P['lower'] * MICRO)), 'upper': int(round(P['upper'] * MICRO)),
           'band': BAND,
-          'maxiter': P['maxiter'], 'mingood': P['nord'], 'tol': TOL, 'outliers': P['outliers'], 'events': events}
+          'maxiter': P['maxiter'], 'mingood': max(P['nord'], 2), 'tol': TOL, 'outliers': P['outliers'], 'events': events}
     info = {'pts': pts, 'curve': sorted(last) if last else [], 'got': got, 'cdiff': cdiff, 'form': form, 'nfit': sum(e['a'] == 'fit' for e in ev),
             'clobbered': res.get('clobbered', False)}
     return tr, None, info
@@ -834,7 +834,7 @@ def falsified_selftest(ctx, accepted, rng, count):
 
 def run_traces(ctx, bsp):
     rng = random.Random(ctx.seed)
-    nprob = 50 if ctx.quick else 700
+    nprob = 50 if ctx.quick else 600
     per_batch = 30 if ctx.quick else 60
     stats = {'maxcdiff': 0, 'skipped': {}, 'runs': 0, 'refused': 0, 'accepted': [], 'forms': {}}
     batch = []
@@ -1166,7 +1166,8 @@ def run(ctx):
                        'presupposed): 0-d x (IndexError), empty x (ValueError "No valid data points": a proper refusal), '
                        'length-1 x (no breakpoint option can span a zero range; returns the scalar True or raises)',
                        'maxiter = 0: the mask may or may not carry the rejections of the single pass (statement leaves it open)',
-                       'fewer positively weighted points than the spline order: outside the statement (pc = "unspec")',
+                       'fewer positively weighted points (left) than the spline order, or a single one: outside the statement '
+                       '(pc = "unspec"; order 1 with one point left is no data set to fit - iterfit then stops without fitting)',
                        'replayed behaviours use nord=2 and nbkpts=2 on consecutive integers or nbkpts=4 on abscissae with a hole '
                        '(an empty breakpoint segment); bspline.fit is the oracle there, so sampling geometry cannot change the '
                        'specified outcome - defects of the numerical fit show in the recorded direction only',
